@@ -25,7 +25,7 @@ READY = True
 DRIVER = "dm_token"
 LEAN_MODULES = ["DaskModel.Props.C14", "DaskModel.Props.C14Sched"]
 TABLES = ["NamedSchedulers"]
-CASE_TIMEOUT_S = 60
+CASE_TIMEOUT_S = 180
 LEVEL_TEXT = ("Lean proof: for every nesting of list/tuple/set/dict/OrderedDict/dataclass/namedtuple/iterator nodes, "
               "repack(map f collections) is the argument tuple with every collection replaced by its value and nothing "
               "else changed (repack_unpack; iterators become lists), collections are deduplicated by token; with "
